@@ -492,8 +492,8 @@ def apply_op(hist, op, idx, **kw):
         # earlier than every later write (pairwise distinct instants)
         tk = hist.disk.tickv
         hist.disk.now += tk
-        hist.fresh = max(hist.epoch + hist.disk.now, hist.disk.last) + 0.5 * tk
-        hist.disk.last = hist.fresh + 0.25 * tk
+        hist.fresh = round(max(hist.epoch + hist.disk.now, hist.disk.last) + 0.5 * tk, 6)
+        hist.disk.last = round(hist.fresh + 0.25 * tk, 6)
     else:
         raise ValueError(k)
     hist.h.update(repr(("op", k, sorted(hist.disk.mtimes().items()))).encode())
